@@ -1,5 +1,5 @@
 """C13 — stop, skip, advance and last control the run as documented."""
-from checks import runfam, mcrun
+from checks import runfam, mcrun, repotraces
 
 PID = "C13"
 JUDGED = {"stopped", "advance", "extra_event", "missing_event", "returned", "final_returned", "votes",
@@ -25,7 +25,7 @@ def lookahead_probe(rep):
 
 def main(tier):
     n = 700 if tier == "quick" else 12000
-    return runfam.run(PID, tier, groups=("core", "control"), judged=JUDGED, ncases=n, seed_salt=1300, pre=lambda rep: (lookahead_probe(rep), mcrun.run_pool(rep, tier, {"returned", "unmatched", "vars", "printed", "matchCount", "scanCount"}, PID)))
+    return runfam.run(PID, tier, groups=("core", "control"), judged=JUDGED, ncases=n, seed_salt=1300, pre=lambda rep: (lookahead_probe(rep), mcrun.run_pool(rep, tier, {"returned", "unmatched", "vars", "printed", "matchCount", "scanCount"}, PID), repotraces.run(rep, tier, JUDGED, PID)))
 
 
 def replay(path):
